@@ -1738,6 +1738,18 @@ void mkdirs(const std::string &path)
     }
 }
 
+struct RunDir
+{
+    std::string path;
+    ~RunDir()
+    {
+        if (!path.empty()) {
+            rmdir((path + "sub").c_str());
+            rmdir(path.c_str());
+        }
+    }
+};
+
 void run(Src &src, Case &c)
 {
     const bool ex = gMode == "ex";
@@ -1941,11 +1953,16 @@ void run(Src &src, Case &c)
     // ---- run
     const std::string base = runDirBase();
     sc.dir = base + "/c07-" + std::to_string(static_cast<long>(getpid())) + "/";
-    mkdirs(sc.dir + "sub");
+    static RunDir runDir; // created once per process (a mkdir/rmdir pair costs 5 ms on this file system), removed at exit; files are removed after every case
+    if (runDir.path != sc.dir) {
+        runDir.path = sc.dir;
+        mkdirs(sc.dir + "sub");
+    }
 
     std::vector<std::pair<std::string, std::string>> fails;
     ChildResult last;
-    for (int attempt = 0; attempt < 8; ++attempt) {
+    const bool dry = getenv("VERIF_C07_DRY") != nullptr; // development aid: generate and classify only
+    for (int attempt = 0; attempt < 8 && !dry; ++attempt) {
         ChildResult r = runChild(sc);
         if (r.ret == 0 && r.done) {
             last = r;
@@ -2008,8 +2025,6 @@ void run(Src &src, Case &c)
         unlink((sc.dir + g.files[i].fname).c_str());
         unlink((sc.dir + "sub/" + g.files[i].fname).c_str());
     }
-    rmdir((sc.dir + "sub").c_str());
-    rmdir(sc.dir.c_str());
 }
 
 } // namespace
